@@ -132,7 +132,12 @@ func checkC01(c *Ctx) {
 	for i := range tprogs {
 		// force the tests feature in
 		r := subRand(c.Seed, "c01test", c.Tier, i)
-		tprogs[i] = generate(r, GenOpts{Features: pickWith(r, "tests", 4)})
+		feats := pickWith(r, "tests", 4)
+		if i%2 == 0 {
+			// a dependant of the package under test that is recompiled for the test binary
+			feats = append(feats, "testdeps")
+		}
+		tprogs[i] = generate(r, GenOpts{Features: feats})
 	}
 	tcfgs := []Config{K0}
 	if !c.Quick() {
@@ -223,7 +228,7 @@ func pickWith(r interface{ Intn(int) int }, must string, n int) []string {
 // names in the error text (used only to form a stable class key).
 func failingFeature(p *Prog, r Res) string {
 	text := string(r.Err) + string(r.Out)
-	roles := []string{"structs", "embed", "aliasbase", "alias", "generics", "ifacea", "ifaceb", "iface", "closures", "tswitch", "labels", "methvals", "convp", "convq", "conv", "registry", "sideeffect", "imports", "asmdecl", "stub", "asm", "lnimpl", "lnpull", "linkname", "init", "ldx", "consts", "maps", "gor", "errs", "tested", "methparam", "_test"}
+	roles := []string{"structs", "embed", "aliasbase", "alias", "generics", "ifacea", "ifaceb", "iface", "closures", "tswitch", "labels", "methvals", "convp", "convq", "conv", "registry", "sideeffect", "imports", "asmdecl", "stub", "asm", "lnimpl", "lnpull", "linkname", "init", "ldx", "consts", "maps", "gor", "errs", "tested", "tdbase", "tddep", "methparam", "_test"}
 	for _, role := range roles {
 		if strings.Contains(text, role+".go") || strings.Contains(text, role+"_amd64.s") {
 			return role
